@@ -16,6 +16,15 @@ C["C15"] = dict(
 C["C16"] = dict(
   text="Lean 4 theorems about an exact-integer model of bytes.rs (no floats): every decimal integer with every unit spelling and letter case denotes exactly n*mult when the product fits 53 bits (parse_integer_exact, via exactness of round-to-53-bits on small integers); unknown suffixes, dot-only and two-dot numbers are rejected; the printed unit is the largest not exceeding the double-rounded value; the two-decimal value is within half a hundredth of the unit; `byte` iff 1; at most two decimals without trailing zeros. Suffix table and display constants are extracted from the source each run. Partial: the truncation law for decimal fractions is decided by the exact model + harness spec on generated inputs, not yet by an unbounded theorem.",
   note="Trusted: Lean kernel; IEEE-754/Rust float parsing, `as` casts and {:.2} formatting are modelled by exact integer arithmetic and validated by the correspondence check (rounding ties at every unit, unit boundaries, random u64).")
+C["C03"] = dict(
+  text="Lean 4 theorems over a model of Verifier/FileError/Status for every torrent (any piece length, piece list, file list with duplicates), every file-system state (an arbitrary function from listed paths to file/dir/missing/error) and every read schedule: the verdict equals the independent recomputation (verify_eq_spec), piece length 0 never verifies, schedule independence, only listed paths are consulted, reported paths are exactly the failing entries. Correspondence: harness-built torrents x trees x four content-root selections on the real binary, three-way agreement impl / model / harness's own recomputation.",
+  note="Trusted: Lean kernel; file system abstraction (no symlinks/permissions); the model-to-code tie is the sampled differential check (exit status and named files); piece lengths >= 2^32 treated as not well-formed.")
+C["C13"] = dict(
+  text="Lean 4 theorems: for all torrents, file systems and schedules, if any listed path resolved lexically leaves the content root (.., absolute, separators inside a component) verification does not succeed (confined), the refusal happens before any file-system access (refusal_ignores_fs), and accepted paths stay strictly inside. Correspondence: hostile torrents with matching decoys outside the root at every position/kind, snapshot for 'writes nothing'.",
+  note="Trusted: Lean kernel; lexical path semantics of Unix (std::path push/components) modelled; sampled differential check ties the screening to Verifier::new.")
+C["C02"] = dict(
+  text="Lean 4 theorems composing the C01 hasher model with the verifier model: a created torrent verifies in every state where the listed files hold their original bytes (unlisted files arbitrary, any schedules); if verification succeeds then every listed file is a regular file with exactly its bytes at creation, or two distinct blocks with equal digests are exhibited (no injectivity assumed); revert restores success. Correspondence: CLI histories (create, random edits, verify, revert, re-create) judged by byte comparison against the saved original and by the model, including named failing files and default locations.",
+  note="Trusted: Lean kernel; edit histories are covered by quantifying over arbitrary file-system states; default-location path algebra exercised on the CLI only; sampled histories tie model to code.")
 
 
 def main():
